@@ -415,8 +415,7 @@ def table_and_columns_preferred_widths(context, box, outer=True):
     # Define the total horizontal border spacing
     if table.style['border_collapse'] == 'separate' and grid_width > 0:
         total_horizontal_border_spacing = (
-            table.style['border_spacing'][0] *
-            (1 + len([column for column in zipped_grid if any(column)])))
+            table.style['border_spacing'][0] * (1 + grid_width))
     else:
         total_horizontal_border_spacing = 0
 
